@@ -97,6 +97,10 @@ def gen(tier, rng, harness=None, driver=None):
     from .modprops import hx
     for kind, text in localgen.zero_spellings():
         lines.append("!mod.mustfail - %s" % hx(text))
+    # explicit parameter IDs of DECLARATIONS: LLVM's numberings are accepted (and printed, and read again), every other one is rejected — not accepted and left
+    # for the printer to fail on
+    for kind, text, ok in localgen.declaration_numberings():
+        lines.append(("!mod.stable - %s" if ok else "!mod.mustfail - %s") % hx(text))
     if tier == "thorough":
         forms = ["P:i", "P:n", "B:i", "B:n", "V:n", "S", "C", "R", "IV"]
         for k in range(1, 6):
